@@ -1132,6 +1132,8 @@ def randcap(nrand, ra, dec, rad, get_radius=False, dorot=False, rng=None):
         )
         rand_ra, rand_dec = rotate(0.0, dec - tdec, 0.0, rand_ra, rand_dec)
         rand_ra, rand_dec = rotate(ra - tra, 0.0, 0.0, rand_ra, rand_dec)
+        # the recursive call returned degrees; converted back below
+        np.deg2rad(rand_r, rand_r)
     else:
 
         rand_r = rng.random(nrand)
